@@ -62,11 +62,14 @@ def main():
                 m = mk(ctx, toy)
                 x16 = tm.var('x16', W)
                 key = T.be32(x16) if L == 32 else sym_bytes('K', L)
-                k, err = m.call(BTC + 'NewSchnorrPublicKey', [m.new_byte_slice(key, 'key')])
+                key_s = m.new_byte_slice(key, 'key')
+                k, err = m.call(BTC + 'NewSchnorrPublicKey', [key_s])
                 sub.note_machine(m)
                 ok, kP = spec_lift_x(toy, x16) if L == 32 else (False, 0)
                 if err is None:
                     ctx.check(ok, 'bv:accepted-implies-x<p-and-on-curve')
+                    from .c20 import reachable
+                    ctx.check(key_s.obj.id not in reachable(k), 'key-does-not-alias-the-callers-buffer (pk bytes hashed into the challenge stay those of the lifted point)')
                     ctx.check(tm.eq(m.toy_pget(T.fld(m, k, SPUB_T, 'point')), kP, W), 'bv:point=lift_x(x)-with-even-y')
                     ctx.check(tm.eq(cat_bytes(m.slice_elems(T.fld(m, k, SPUB_T, 'xBytes'))), cat_bytes(key), 256), 'bv:xBytes=key')
                     return 'ok'
